@@ -12,7 +12,7 @@ from checks import v3hist
 from vlib import core, drivers, gen
 
 LEVEL = "exploration"
-REPLIES = ["reply", "reply_time", "none", "none", "report", "reply", "garbage", "reply_pad"]
+REPLIES = ["foreign_report", "reply", "reply_time", "none", "none", "report", "reply", "garbage", "reply_pad"]
 
 
 def build_case(u, tier="quick"):
